@@ -37,7 +37,7 @@ PROP = "C08"
 
 GEN_INVARIANTS = ["TypeOK", "AllSpanned", "Nesting", "SiblingsOrdered", "ParensOwned", "Balanced", "GapsLegal"]
 
-CTX_ALL = ["expr", "assign", "assign2", "assigntup", "aug", "ann", "anntype", "two", "second", "ret", "call",
+CTX_ALL = ["pairtop", "pairif", "pairdef", "pairclass", "pairdeep", "pairlast", "expr", "assign", "assign2", "assigntup", "aug", "ann", "anntype", "two", "second", "ret", "call",
            "call2nd", "call1st", "kw", "star", "dstar", "callee", "attrof", "index", "indexed", "slicelo", "slicehi",
            "binl", "binr", "powl", "neg", "not", "and", "or3", "cmp", "isnot", "notin", "tuple", "tuple1", "list",
            "set", "dictv", "dictk", "ifexpt", "ifexpb", "ifexpe", "lambody", "lamdef", "compelt", "compiter",
@@ -46,7 +46,7 @@ CTX_ALL = ["expr", "assign", "assign2", "assigntup", "aug", "ann", "anntype", "t
            "finally", "tryall", "deco", "deco2", "default", "defstar", "returns", "method", "base", "base2",
            "basekw", "classdeco", "assert", "assertmsg", "raise", "raisefrom", "del", "import", "fromimp",
            "fromdot", "global", "match", "matchseq", "matchguard"]
-EXPR_ALL = ["bin", "oct", "dotfive", "onedot", "expneg", "stropen", "strkw", "name", "int", "hex", "float", "exp", "imag", "under", "str1", "str2", "strhash", "strparen", "bytes",
+EXPR_ALL = ["hexupper", "bin", "oct", "dotfive", "onedot", "expneg", "stropen", "strkw", "name", "int", "hex", "float", "exp", "imag", "under", "str1", "str2", "strhash", "strparen", "bytes",
             "raw", "triple", "concat", "none", "true", "dots", "add", "mulnest", "addmul", "pow", "neg", "not",
             "inv", "and", "or3", "lt", "isnot", "notin", "attr", "attr2", "call0", "call1", "call2", "callkw",
             "callstar", "callcall", "method", "sub", "subsub", "subtuple", "slice", "slicel", "sliceu", "slices",
@@ -178,7 +178,8 @@ def deviation(src, exp, got, kind):
     d = {"lost_head": set(), "lost_tail": set(), "extra_head": set(), "extra_tail": set()}
     if kind == "Num" and got[0] == exp[0] and got[1] < exp[1]:
         lit = src[exp[0]:exp[1]]                    # the region is a proper prefix of the literal
-        cls = "underscore" if "_" in lit else "binary" if lit[:2] in ("0b", "0B") else "other"
+        cls = "underscore" if "_" in lit else "binary" if lit[:2] in ("0b", "0B") else \
+            "upper-radix" if lit[:2] in ("0X", "0O") else "other"
         d["lost_tail"] = {"literal-tail:" + cls}
         return d
     if kind == "JoinedStr" and got[0] == exp[0] and got[1] < exp[1]:
@@ -688,6 +689,7 @@ def corrupt_trace(line):
 
 
 def corpus_part(tier, verdict):
+    common.use_repo()          # file-level failures are shrunk in this process, against the tree under test
     files = corpus_files()
     rnd = common.rng("c08-corpus")
     if tier == "quick":
